@@ -4,7 +4,7 @@
 # Every check must still print OK: these rewrites preserve the properties.
 cd /verif
 run() { patch=$1; shift
-  git -C /repo apply refactors/$patch.patch || { echo "refactors/$patch.patch does not apply"; return; }
+  git -C /repo apply /verif/refactors/$patch.patch || { echo "refactors/$patch.patch does not apply"; return; }
   for p in "$@"; do ./check $p quick 2>&1 | grep -E "^(OK|VIOLATION)" | sed "s/^/[$patch] /" | cut -c1-160; done
   git -C /repo checkout -- . ; }
 run lzhuf C06 C07 C08 C03 C04
